@@ -383,7 +383,72 @@ def b_new_link_primitive(root: Path) -> None:
     p.write_text(s.replace(old, "            self._save_parent.replace_child(self._save_side, node)\n"))
 
 
+def b_wave_h_benign_halves(root: Path) -> None:
+    """The behaviour-preserving halves of four seeded changes of wave h: rotate() asks get_side() up front (no override in
+    UnaryExpression), get_rand_vars() keeps the exclusions in a set and hoists its iteration bound (no single-draw fast
+    path), get_terms() as an explicit stack walk that flattens every nested group, BalancedMove's chained-equation guard
+    written with any()."""
+    p = root / "mathy_core/tree.py"
+    s = p.read_text()
+    old = ("        grand_parent = parent.parent\n"
+           "        if node == parent.left:\n")
+    assert old in s
+    s = s.replace(old, "        grand_parent = parent.parent\n"
+                       "        node_side = parent.get_side(node)\n"
+                       "        parent_side = grand_parent.get_side(parent) if grand_parent else None\n"
+                       "        if node_side == LEFT:\n")
+    old = "        if parent == grand_parent.left:\n            grand_parent.left = node\n"
+    assert old in s
+    s = s.replace(old, "        if parent_side == LEFT:\n            grand_parent.left = node\n")
+    p.write_text(s)
+    p = root / "mathy_core/problems.py"
+    s = p.read_text()
+    old = ("    rand_vars: Set[str] = set()\n"
+           "    iters = 0\n"
+           "    while len(rand_vars) < num_vars:\n"
+           "        _rand = rand_var(common_variables)\n"
+           "        if _rand not in exclude_vars:\n"
+           "            rand_vars.add(_rand)\n"
+           "        iters += 1\n"
+           "        if iters > num_vars * 10:\n")
+    assert old in s
+    s = s.replace(old, "    excluded: Set[str] = set(exclude_vars)\n"
+                       "    max_iters = num_vars * 10\n"
+                       "    rand_vars: Set[str] = set()\n"
+                       "    iters = 0\n"
+                       "    while len(rand_vars) < num_vars:\n"
+                       "        _rand = rand_var(common_variables)\n"
+                       "        if _rand not in excluded:\n"
+                       "            rand_vars.add(_rand)\n"
+                       "        iters += 1\n"
+                       "        if iters > max_iters:\n")
+    p.write_text(s)
+    p = root / "mathy_core/util.py"
+    s = p.read_text()
+    a = s.index("    def visit_fn(node: MathExpression, depth: int, data: Any) -> Optional[VisitStop]:\n        nonlocal results\n        if not is_add_or_sub(node):")
+    b = s.index("    root.visit_inorder(visit_fn)\n    return [expression] if len(results) == 0 else results", a)
+    s = s[:a] + ("    stack: List[MathExpression] = [root]\n"
+                 "    while len(stack) > 0:\n"
+                 "        node = stack.pop()\n"
+                 "        if is_add_or_sub(node):\n"
+                 "            if node.right is not None:\n"
+                 "                stack.append(node.right)\n"
+                 "            if node.left is not None:\n"
+                 "                stack.append(node.left)\n"
+                 "        elif node is not root:\n"
+                 "            results.append(node)\n") + s[b + len("    root.visit_inorder(visit_fn)\n"):]
+    p.write_text(s)
+    p = root / "mathy_core/rules/balanced_move.py"
+    s = p.read_text()
+    old = ("        if isinstance(root.left, EqualExpression) or isinstance(\n"
+           "            root.right, EqualExpression\n"
+           "        ):\n")
+    assert old in s
+    p.write_text(s.replace(old, "        if any(isinstance(side, EqualExpression) for side in (root.left, root.right)):\n"))
+
+
 BENIGN: Dict[str, Tuple[Callable[[Path], None], List[str]]] = {
+    "wave-h-benign-halves": (b_wave_h_benign_halves, ["C15", "C17", "C16", "C06", "C02", "C07"]),
     "tokenizer-stat": (b_tokenizer_stat, ["C12", "C11", "C10", "C03"]),
     "new-link-primitive": (b_new_link_primitive, ["C07", "C01", "C06", "C09", "C13"]),
     "comprehension-queries": (b_comprehension_queries, ["C14", "C16", "C01", "C07", "C13"]),
